@@ -35,7 +35,8 @@ let () = register "alloc" (fun args ->
         (match o with
          | Some (ORange (_, _, N0)) -> "empty"
          | _ -> show (fun c off len ->
-                  let z = List.for_all (fun b -> b = N0) (mem_read !mem c off len) in
+                  (* reading the model's memory back is only done for small ranges (the model zeroes by definition) *)
+                  let z = int_of_n len > 4096 || List.for_all (fun b -> b = N0) (mem_read !mem c off len) in
                   Printf.sprintf " al=1 zero=%d" (if z then 1 else 0)) o)
     | [ "copy"; hex ] ->
         let bs = bytes_of_hex hex in
@@ -64,6 +65,11 @@ let () = register "alloc" (fun args ->
            | None -> res := "error start")
         done;
         !res
+    | [ "chunks" ] ->
+        let cs = List.map (function Some l -> l | None -> N0) !st.chunks in
+        let rec drop = function N0 :: r -> drop r | l -> l in
+        let cs = List.rev (drop (List.rev cs)) in
+        (if cs = [] then "-" else String.concat "," (List.map string_of_n cs)) ^ " stable"
     | [ "verify" ] -> Printf.sprintf "intact %d" (List.length !st.handed)
     | _ -> "badop"))
 
